@@ -8,15 +8,23 @@ Tie, three kinds of case against the Lean driver `drv-need`:
           storing.Share objects, wrapped in acting.Act or acting.Nact ('not')
   script  a FloScript `go hit if <needs>` built by the real Builder and run by the real Skedder; the shares are
           set after the build; observed: transition taken (and at which evaluation) or not, or TypeError out of run()
-Oracle:   the written comparison evaluated by this file on fractions.Fraction / str / bool / None, straight from
-          the property text (window goal-|tol| <= state <= goal+|tol| for numbers, equality otherwise, != its
+  guard   a FloScript whose conditions sit in an auxiliary framer — either a plain `aux worker` or a MOOT framer run
+          as a clone (`aux worker as w1`) — as a `let me if <needs>` entry guard and a `go hit if <needs>` transition;
+          observed: frame blocked / entered and transition taken or not / TypeError
+Every case is in mode q (ints and dyadic floats: float arithmetic exact, compared with the exact-rational
+instantiation the theorems are about) or mode f (decimal-grid and random doubles, on and one ulp next to the band
+edges goal-|tol|, goal+|tol|: compared bit for bit with the same definitions instantiated at Lean Float).
+Oracle:   the written comparison evaluated by this file on the Python values themselves, straight from
+          the property text (window goal-|tol| <= state <= goal+|tol| for numbers — evaluated as written, in the
+          arithmetic of the values: exact for ints/dyadics, IEEE for floats —, equality otherwise, != its
           complement, orderings compare, bare state = truthiness, not = negation, and = all true); where Python
           itself cannot order the operands (None, str against number) the property is silent and any outcome but a
           silent True/False flip is accepted: the oracle then requires TypeError.
 
-value token: None -> null | bool -> true/false | number -> "i:<int>" or "q:<p>/<q>" (float, dyadic) | string -> "s:<text>"
+value token: None -> null | bool -> true/false | number -> "i:<int>" or "q:<p>/<q>" (float, dyadic) or "x:<16 hex>" (any
+double, by bit pattern) | string -> "s:<text>"
 """
-import os, itertools
+import os, itertools, struct, math
 from fractions import Fraction as F
 import core
 
@@ -37,12 +45,19 @@ def py(tok):
         if F(x) != f:
             raise core.Infra("inexact " + tok)
         return x
+    if k == "x":
+        return struct.unpack(">d", bytes.fromhex(v))[0]
     if k == "s":
         return v
     raise core.Infra("bad token %r" % (tok,))
 
 
-def wire(tok):
+def X(v):
+    """token of an arbitrary double"""
+    return "x:" + struct.pack(">d", float(v)).hex()
+
+
+def wire(tok, mode="q"):
     v = py(tok)
     if v is None:
         return "N"
@@ -50,6 +65,11 @@ def wire(tok):
         return "B1" if v else "B0"
     if isinstance(v, str):
         return "S" + ",".join(str(ord(c)) for c in v)
+    if mode == "f":
+        if F(float(v)) != F(v):
+            raise core.Infra("int not a double: %r" % (v,))
+        b = struct.pack(">d", float(v)).hex()
+        return "X" + ("0000000000000000" if b == "8000000000000000" else b)
     f = F(v)
     return "Q%d/%d" % (f.numerator, f.denominator)
 
@@ -85,7 +105,10 @@ def spec_check(state, cmp_, goal, tol):
     s, g, t = spec_num(state), spec_num(goal), spec_num(tol)
     if cmp_ in ("==", "!="):
         if s is not None and g is not None and t is not None:
-            r = (g - abs(t) <= s <= g + abs(t))
+            # the written formula, band edges in the arithmetic of the values themselves (exact for ints and
+            # dyadics, IEEE double otherwise); the comparisons with the edges are exact
+            lo, hi = goal - abs(tol), goal + abs(tol)
+            r = (F(lo) <= s <= F(hi))
         else:                                   # "equality otherwise"
             sn, gn = spec_num(state), spec_num(goal)
             if sn is not None and gn is not None:
@@ -125,20 +148,27 @@ class CHECK(core.Check):
             "strings incl. empty/prefix/case}, goal +- tol boundary and either side, all six operators and unknown "
             "operator strings; acts: one clause through NeedDirect/NeedIndirect/NeedBoolean on real Shares under Act or "
             "Nact; script: FloScript `go hit if [not] need [and …]` (1..3 clauses, direct and indirect goals, explicit "
-            "fields, framer clocks elapsed/recurred) through Builder + Skedder, shares set after build. "
+            "fields, framer clocks elapsed/recurred) through Builder + Skedder, shares set after build; guard: the "
+            "same conditions as `let me if` entry guard and `go` transition inside an auxiliary framer that is either plain "
+            "or a moot framer run as a clone (`aux worker as w1`). 30% of the random cases of every kind in mode f: "
+            "numbers from decimal grids (k/10, k/20, k/100) and random doubles, the state on the computed band edges "
+            "goal-|tol|, goal+|tol|, one ulp inside/outside them (math.nextafter) and on decimal neighbours. "
             "Bounded-exhaustive: check over a 13-value set x 7 operators x 3 tolerances (thorough: 17 values x 8 x 5). "
             "non-trivial = the result is True/False (not an error) and the operands are not identical tokens; "
             "distinct by the whole case")
     TRUSTED = ["correspondence: needing.Need.Check, the NeedDirect/NeedIndirect/NeedBoolean actors, acting.Act/Nact and "
                "(script cases) building.Builder + skedding.Skedder + acting.Transiter run in-process; compared with the "
-               "Lean driver 'need'",
+               "Lean driver 'need' (mode q: exact rationals; mode f: Lean Float = IEEE binary64, bit patterns exchanged)",
                "script cases: shares are assigned from Python after build() (literal conversion of `put` is C17's subject); "
                "goal literals go through Convert2StrBoolCoordNum; the framer clocks at the j-th evaluation are "
                "elapsed = j*period, recurred = j (measured, C11's subject)",
                "Python semantics of == < <= on None/bool/int/float/str as transcribed in pyEq/pyLt?/pyLe?; exactness of "
                "float arithmetic on the dyadic values used"]
     PARTIAL = ["values outside None/bool/int/float/str (complex, points, NaN, inf) are outside the model",
-               "floats that are not dyadic: goal - abs(tol) rounds in the implementation, the model is exact"]
+               "the theorems are about exact rational arithmetic; for doubles that are not dyadic the band edges "
+               "goal -/+ |tol| round: that behaviour is pinned by the Float instantiation of the same definitions "
+               "(compared bit for bit), not proved about",
+               "ints beyond 2^53 mixed with floats (Python compares them exactly, the Float instantiation cannot)"]
     TECHNIQUE = ("Lean 4 theorems for all Python values in all positions (case analysis, induction over the need list and "
                  "over the ticks) + differential correspondence at three levels (function, actors, FloScript run)")
     LEVEL_TEXT = ("Full proof on the model: == on numbers <-> goal-|tol| <= state <= goal+|tol| (also |state-goal| <= |tol|; "
@@ -179,6 +209,56 @@ class CHECK(core.Check):
         v = edge + rng.choice([0, 0, F(1, 8), -F(1, 8), F(1, 1024), -F(1, 1024)])
         return "i:%d" % v if v.denominator == 1 and rng.random() < 0.4 else "q:%d/%d" % (v.numerator, v.denominator)
 
+    def _fnum(self, rng):
+        r = rng.random()
+        if r < 0.45:
+            return rng.choice([0.1, 0.2, 0.3, 0.4, 0.15, 0.05, 0.25, 0.5, 0.7, 0.8, 1.1, 1.4, 0.6, 0.9, 1.2, 2.3, -0.3, -0.4])
+        if r < 0.7:
+            return rng.randint(-40, 40) / rng.choice([10, 20, 100])
+        if r < 0.85:
+            return float(rng.randint(-5, 5))
+        return rng.uniform(-3, 3)
+
+    def _ftriple(self, rng):
+        """(state, goal, tol) doubles with the state on / next to the computed band edges"""
+        goal = self._fnum(rng)
+        tol = rng.choice([0.1, 0.1, 0.05, 0.3, 0.25, 0.2, -0.1, 0.7, abs(self._fnum(rng)), 0.0])
+        lo, hi = goal - abs(tol), goal + abs(tol)
+        edge = rng.choice([lo, hi])
+        r = rng.random()
+        if r < 0.3:
+            state = edge
+        elif r < 0.6:
+            state = math.nextafter(edge, rng.choice([-math.inf, math.inf]))
+        elif r < 0.8:
+            state = round(edge, rng.choice([1, 2, 3]))            # the decimal neighbour (0.4 for 0.30000000000000004 …)
+        elif r < 0.9:
+            state = goal
+        else:
+            state = self._fnum(rng)
+        return state, goal, tol
+
+    def _ftok(self, v):
+        s = repr(float(v))
+        if "e" in s or "n" in s or "i" in s:                      # keep FloScript literals plain
+            v = round(float(v), 6)
+        return X(v)
+
+    def _fclause(self, rng, env):
+        """a comparison clause on doubles; fills env"""
+        state, goal, tol = self._ftriple(rng)
+        k = rng.choice([2, 4, 5, 6])
+        if rng.random() < 0.6:
+            g = {"lit": self._ftok(goal)}
+        else:
+            gk = rng.choice([x for x in (2, 4, 5, 6) if x != k])
+            g = {"ref": gk}
+            env[str(gk)] = self._ftok(goal)
+        env[str(k)] = self._ftok(state)
+        cmp_ = rng.choice(["==", "==", "!=", "!=", "<", "<=", ">=", ">"])
+        return {"neg": rng.random() < 0.3, "kind": "c", "k": k, "cmp": cmp_, "goal": g, "tol": self._ftok(tol),
+                "showtol": True}
+
     def _triple(self, rng):
         goal = self._val(rng)
         tol = rng.choice(["i:0", "i:0", "q:1/2", "q:-1/2", "i:1", "q:1/8", self._val(rng, "num"), None, "s:x", True])
@@ -217,20 +297,61 @@ class CHECK(core.Check):
                 env[str(c["k"])] = self._near(rng, goal, c["tol"]) if rng.random() < 0.8 else goal
         return env
 
+    def _clauses_env(self, rng, mode, nmax, clocks):
+        """1..nmax clauses + env, in the given mode"""
+        if mode == "f":
+            env = {}
+            cs = []
+            for _ in range(rng.choice([1, 1, 2, 3][:max(1, nmax + 1)])):
+                if cs and rng.random() < 0.3:
+                    cs.append(self._clause(rng, clocks=clocks))           # mixed in: ints / strings / clocks
+                else:
+                    cs.append(self._fclause(rng, env))
+            cs = cs[:nmax]
+            for c in cs:                                                  # values for the non-f clauses
+                ks = [c["k"]] + ([c["goal"]["ref"]] if c["kind"] == "c" and "ref" in c["goal"] else [])
+                for k in ks:
+                    if k >= 2 and str(k) not in env:
+                        env[str(k)] = self._val(rng)
+            return cs, env
+        cs = [self._clause(rng, clocks=clocks) for _ in range(rng.choice([1, 1, 2, 2, 3][:max(1, nmax + 2)]))][:nmax]
+        return cs, self._env(rng, cs)
+
     def generate(self, rng, n, tier):
-        n_script = max(40, n // 7)
+        n_script = max(40, n // 8)
+        n_guard = max(40, n // 8)
         n_acts = n // 4
-        for i in range(n - n_script - n_acts):
-            s, g, t = self._triple(rng)
-            cmp_ = rng.choice(CMPS) if rng.random() < 0.95 else rng.choice(["=", "=>", "is", "", "eq"])
-            yield {"kind": "check", "state": s, "cmp": cmp_, "goal": g, "tol": t}
+        for i in range(n - n_script - n_acts - n_guard):
+            mode = "f" if rng.random() < 0.3 else "q"
+            if mode == "f":
+                st, g, t = self._ftriple(rng)
+                s_, g_, t_ = X(st), X(g), X(t)
+                if rng.random() < 0.1:
+                    g_ = rng.choice(["i:0", "i:1", None, "s:a", True])   # mixed operands
+                cmp_ = rng.choice(["==", "==", "!=", "<", "<=", ">=", ">"])
+            else:
+                s_, g_, t_ = self._triple(rng)
+                cmp_ = rng.choice(CMPS) if rng.random() < 0.95 else rng.choice(["=", "=>", "is", "", "eq"])
+            yield {"kind": "check", "mode": mode, "state": s_, "cmp": cmp_, "goal": g_, "tol": t_}
         for i in range(n_acts):
-            c = self._clause(rng, clocks=False)
-            yield {"kind": "acts", "clause": c, "env": self._env(rng, [c])}
+            mode = "f" if rng.random() < 0.3 else "q"
+            cs, env = self._clauses_env(rng, mode, 1, clocks=False)
+            yield {"kind": "acts", "mode": mode, "clause": cs[0], "env": env}
         for i in range(n_script):
-            cs = [self._clause(rng) for _ in range(rng.choice([1, 1, 2, 2, 3]))]
-            yield {"kind": "script", "clauses": cs, "env": self._env(rng, cs), "period": "q:1/8",
-                   "limit": rng.choice([3, 5])}
+            mode = "f" if rng.random() < 0.3 else "q"
+            cs, env = self._clauses_env(rng, mode, 3, clocks=True)
+            yield {"kind": "script", "mode": mode, "clauses": cs, "env": env, "period": "q:1/8", "limit": rng.choice([3, 5])}
+        for i in range(n_guard):
+            mode = "f" if rng.random() < 0.3 else "q"
+            guard, env1 = self._clauses_env(rng, mode, 2, clocks=False)
+            if rng.random() < 0.15:
+                guard, env1 = [], {}
+            cs, env2 = self._clauses_env(rng, mode, 2, clocks=False)
+            env = dict(env2)
+            env.update(env1)                                              # the guard's boundary values win
+            if guard and rng.random() < 0.5:                              # make sure negated guards are frequent
+                guard[0] = dict(guard[0], neg=True)
+            yield {"kind": "guard", "mode": mode, "clone": rng.random() < 0.6, "guard": guard, "clauses": cs, "env": env}
 
     def exhaustive(self, tier):
         if tier == "thorough":
@@ -243,7 +364,21 @@ class CHECK(core.Check):
             tols = ["i:0", "q:1/2", None]
             cmps = CMPS + ["="]
         for s, g, t, c in itertools.product(vals, vals, tols, cmps):
-            yield {"kind": "check", "state": s, "cmp": c, "goal": g, "tol": t}
+            yield {"kind": "check", "mode": "q", "state": s, "cmp": c, "goal": g, "tol": t}
+        # the decimal band-edge table (doubles): every pair state/goal/tol from small decimal sets, == and !=
+        decs = [0.1, 0.2, 0.3, 0.4, 0.15, 0.05, 0.25, 0.5, 0.8, 1.1, 1.4]
+        tols = [0.1, 0.05, 0.3, 0.25]
+        if tier == "quick":
+            decs, tols = decs[:8], tols[:3]
+        for g in decs:
+            for t in tols:
+                edges = {g - t, g + t, round(g - t, 2), round(g + t, 2)}
+                for e in list(edges):
+                    edges.add(math.nextafter(e, math.inf))
+                    edges.add(math.nextafter(e, -math.inf))
+                for st in sorted(edges):
+                    for c in ("==", "!="):
+                        yield {"kind": "check", "mode": "f", "state": X(st), "cmp": c, "goal": X(g), "tol": X(t)}
 
     # ------------------------------------------------------------------ implementation
     def impl(self, case):
@@ -257,6 +392,8 @@ class CHECK(core.Check):
             return ["T" if r is True else "F" if r is False else "? %r" % (r,)]
         if kind == "acts":
             return [self._impl_acts(case)]
+        if kind == "guard":
+            return [self._impl_guard(case)]
         return [self._impl_script(case)]
 
     def _impl_acts(self, case):
@@ -300,9 +437,9 @@ class CHECK(core.Check):
         path, field = REFS[k]
         return "%s in %s" % (field, path) if field else path
 
-    def script_text(self, case):
+    def cond_text(self, clauses):
         parts = []
-        for c in case["clauses"]:
+        for c in clauses:
             s = "not " if c["neg"] else ""
             s += self._state_text(c["k"])
             if c["kind"] == "c":
@@ -311,6 +448,70 @@ class CHECK(core.Check):
                 if py(c["tol"]) != 0 or c.get("showtol"):
                     s += " +- " + lit(c["tol"])
             parts.append(s)
+        return " and ".join(parts)
+
+    GUARD_TPL = ("house test\n\nframer main be active first start\n   frame timeout\n      go abort if elapsed >= 1\n"
+                 "      frame start in timeout\n         put 0 into .out.r\n         put 0 into .out.reached\n"
+                 "         %(auxline)s\n         go fin if aux %(auxname)s is done\n   frame fin\n      bid stop all\n"
+                 "   frame abort\n      put 9 into .out.r\n      bid stop all\n\n"
+                 "framer worker be %(kind)s first A\n   frame A\n      go next\n   frame B\n%(guard)s"
+                 "      put 1 into .out.reached\n      go hit if %(cond)s\n      go miss\n   frame hit\n"
+                 "      put 1 into .out.r\n      done\n   frame miss\n      put 2 into .out.r\n      done\n")
+
+    def guard_text(self, case):
+        clone = case["clone"]
+        return self.GUARD_TPL % {
+            "auxline": "aux worker as w1" if clone else "aux worker", "auxname": "w1" if clone else "worker",
+            "kind": "moot" if clone else "aux",
+            "guard": ("      let me if %s\n" % self.cond_text(case["guard"])) if case["guard"] else "",
+            "cond": self.cond_text(case["clauses"])}
+
+    def _run_flo(self, text, case):
+        """build + run a script; returns (store | None, error string | None)"""
+        from ioflo.base import skedding
+        d = os.path.join(core.SCRATCH, "c21-%d" % os.getpid())
+        os.makedirs(d, exist_ok=True)
+        path = os.path.join(d, "need.flo")
+        with open(path, "w") as f:
+            f.write(text)
+        try:
+            sk = skedding.Skedder(name="c21", period=0.125, real=False, filepath=path)
+            if not sk.build():
+                return None, "BUILD-FAILED"
+            store = sk.houses[0].store
+            for k, tok in case["env"].items():
+                p, field = REFS[int(k)]
+                sh = store.fetch(p)
+                if sh is None:
+                    continue                      # not referenced by this script
+                sh[field or "value"] = py(tok)
+            try:
+                sk.run()
+            except TypeError:
+                return None, "E TypeError"
+            return store, None
+        finally:
+            try:
+                os.remove(path)
+                os.rmdir(d)
+            except OSError:
+                pass
+
+    def _impl_guard(self, case):
+        store, err = self._run_flo(self.guard_text(case), case)
+        if err:
+            return err
+        reached, r = store.fetch(".out.reached")["value"], store.fetch(".out.r")["value"]
+        if (reached, r) == (0, 9):
+            return "blocked"
+        if (reached, r) == (1, 1):
+            return "hit"
+        if (reached, r) == (1, 2):
+            return "miss"
+        return "? reached=%r r=%r" % (reached, r)
+
+    def script_text(self, case):
+        parts = [self.cond_text(case["clauses"])]
         return ("house test\n\nframer main be active first start\n   frame start\n      put 0 into .out.r\n"
                 "      put 0 into .out.n\n      go f1\n\n   frame f1\n      recur\n      inc .out.n with 1\n"
                 "      go hit if %s\n      go miss if .out.n >= %d\n\n   frame hit\n      put 1 into .out.r\n"
@@ -351,27 +552,30 @@ class CHECK(core.Check):
 
     # ------------------------------------------------------------------ model requests
     @staticmethod
-    def _clause_wire(c):
+    def _clause_wire(c, m):
         s = "!" if c["neg"] else ""
         if c["kind"] == "b":
             return s + "b:%d" % c["k"]
-        g = ("L" + wire(c["goal"]["lit"])) if "lit" in c["goal"] else "R%d" % c["goal"]["ref"]
+        g = ("L" + wire(c["goal"]["lit"], m)) if "lit" in c["goal"] else "R%d" % c["goal"]["ref"]
         cmp_ = c["cmp"] if c["cmp"] and not set(c["cmp"]) & set(" :;") else "?"
-        return s + "c:%d:%s:%s:%s" % (c["k"], cmp_, g, wire(c["tol"]))
+        return s + "c:%d:%s:%s:%s" % (c["k"], cmp_, g, wire(c["tol"], m))
 
     @staticmethod
-    def _env_wire(env):
-        return ";".join("%s=%s" % (k, wire(v)) for k, v in sorted(env.items(), key=lambda kv: int(kv[0]))) or "-"
+    def _env_wire(env, m):
+        return ";".join("%s=%s" % (k, wire(v, m)) for k, v in sorted(env.items(), key=lambda kv: int(kv[0]))) or "-"
 
     def requests(self, case):
+        m = case.get("mode", "q")
+        cl = lambda cs: ";".join(self._clause_wire(c, m) for c in cs) or "-"
         if case["kind"] == "check":
             cmp_ = case["cmp"] if case["cmp"] and " " not in case["cmp"] else "?"
-            return ["check %s %s %s %s" % (wire(case["state"]), cmp_, wire(case["goal"]), wire(case["tol"]))]
+            return ["%s check %s %s %s %s" % (m, wire(case["state"], m), cmp_, wire(case["goal"], m), wire(case["tol"], m))]
         if case["kind"] == "acts":
-            return ["all %s %s" % (self._env_wire(case["env"]), self._clause_wire(case["clause"]))]
-        f = F(py(case["period"]))
-        return ["frame %d/%d %d %s %s" % (f.numerator, f.denominator, case["limit"], self._env_wire(case["env"]),
-                                          ";".join(self._clause_wire(c) for c in case["clauses"]))]
+            return ["%s all %s %s" % (m, self._env_wire(case["env"], m), self._clause_wire(case["clause"], m))]
+        if case["kind"] == "guard":
+            return ["%s guarded %s %s %s" % (m, self._env_wire(case["env"], m), cl(case["guard"]), cl(case["clauses"]))]
+        return ["%s frame %s %d %s %s" % (m, wire(case["period"], m), case["limit"], self._env_wire(case["env"], m),
+                                          cl(case["clauses"]))]
 
     # ------------------------------------------------------------------ oracle
     def _spec_clause(self, c, env):
@@ -411,6 +615,20 @@ class CHECK(core.Check):
             if got != want:
                 return "clause %s on %s = %s, the written condition gives %s" % (case["clause"], case["env"], got, want)
             return None
+        if case["kind"] == "guard":
+            g = self._spec_all(case["guard"], case["env"])
+            if g == "TypeError":
+                want = "E TypeError"
+            elif not g:
+                want = "blocked"
+            else:
+                r = self._spec_all(case["clauses"], case["env"])
+                want = "E TypeError" if r == "TypeError" else "hit" if r else "miss"
+            if got != want:
+                return "%s framer: `let me if %s` / `go hit if %s` with %s: %s, the written conditions give %s" % (
+                    "cloned moot" if case["clone"] else "plain aux", self.cond_text(case["guard"]) or "-",
+                    self.cond_text(case["clauses"]), {k: py(v) for k, v in case["env"].items()}, got, want)
+            return None
         period = F(py(case["period"]))
         want = "miss"
         for j in range(1, case["limit"] + 1):
@@ -439,6 +657,11 @@ class CHECK(core.Check):
 
     def bucket(self, case, out):
         res = out[0].split()[0] if out else "none"
+        res = case.get("mode", "q") + "/" + res
+        if case["kind"] == "guard":
+            neg = any(c["neg"] for c in case["guard"])
+            return "guard/%s/%s/%s" % ("clone" if case["clone"] else "plain",
+                                        "negated-guard" if neg else "guard" if case["guard"] else "no-guard", res)
         if case["kind"] == "check":
             def t(v):
                 v = py(v)
@@ -453,12 +676,23 @@ class CHECK(core.Check):
         return "script/%dclauses%s/%s" % (len(case["clauses"]), "/clock" if clocks else "", res)
 
     def shrink_candidates(self, case):
+        if case["kind"] == "guard":
+            for key in ("guard", "clauses"):
+                if len(case[key]) > (0 if key == "guard" else 1):
+                    for i in range(len(case[key])):
+                        c = dict(case)
+                        c[key] = case[key][:i] + case[key][i + 1:]
+                        yield c
+            if case["clone"]:
+                c = dict(case)
+                c["clone"] = False
+                yield c
         if case["kind"] == "script" and len(case["clauses"]) > 1:
             for i in range(len(case["clauses"])):
                 c = dict(case)
                 c["clauses"] = case["clauses"][:i] + case["clauses"][i + 1:]
                 yield c
-        if case["kind"] in ("script", "acts"):
+        if case["kind"] in ("script", "acts", "guard"):
             for k in list(case["env"]):
                 c = dict(case)
                 c["env"] = {a: b for a, b in case["env"].items() if a != k}
